@@ -70,6 +70,8 @@ def realise(at, k=3, spacing="uniform", rng=None, relabel=False, shifts=False, f
         elif zr.random() < 0.12:
             # ids as a segmentation pipeline with global counters hands them out: far above the number of objects
             big = int(10 ** zr.uniform(5, 9))
+            if zr.random() < 0.3:
+                big = 2 ** 53 + int(zr.integers(1, 10 ** 6))      # beyond the integers a float64 can hold exactly
             vlab = [x + big for x in vlab]
     else:
         vlab = [i + id_base for i in range(nv)]
